@@ -6,7 +6,7 @@ Op `pair_eval`: a base election and a perturbation of it, both evaluated by the 
   rule 'plurality'    simple votes + Plurality: kinds 'switch' (one vote moved from x to w), 'new'
   positional rules    PreConverted(RankedToPositionalVotes(scorer), Plurality): kinds 'lift', 'new'
   'approval'          PreConverted(ApprovalToSimpleVotes(), Plurality): kinds 'approve', 'new'
-  'score_sum'         ScoreVoting('sum'): kinds 'raise', 'new'
+  'score_sum'         ScoreVoting('sum', unscored_value=None|0|1|2|5|'min'): kinds 'raise', 'new'
   'bucklin'           PreferenceAddition(): kinds 'lift', 'new' (bullet ballot)
   'bucklin_whole'     PreferenceAddition(split_equal_rankings=False): the same
   'copeland', 'minimax_wv', 'minimax_margins', 'schulze'
@@ -33,10 +33,13 @@ REQUIRED = ['ha_house_monotone', 'ha_house_monotone_general', 'ha_vote_monotone'
             'additive_winner_monotone', 'additive_winner_monotone_new', 'plurality_monotone_switch', 'plurality_monotone_new',
             'scorer_monotone', 'positional_monotone_lift', 'positional_monotone_new', 'approval_monotone_approve',
             'approval_monotone_new', 'score_sum_monotone_raise', 'score_sum_monotone_new',
+            'score_sum_unscored_monotone_raise', 'score_sum_unscored_monotone_new',
             'bucklin_monotone_lift', 'bucklin_monotone_bullet', 'bucklin_default_monotone_lift',
             'bucklin_default_monotone_bullet', 'copeland_monotone', 'minimax_monotone',
             'copeland_monotone_lift', 'copeland_monotone_bullet', 'minimax_monotone_lift', 'minimax_monotone_bullet']
-UNPROVED = ['schulze_monotone (beat-path strengths under Raised: needs the Floyd-Warshall correctness of widest_paths)',
+UNPROVED = ["score_sum_monotone for unscored_value='min' (modelled through C12's {score: count} table model, checked by "
+            'correspondence and oracle; the theorems cover unscored_value None and every numeric value)',
+            'schulze_monotone (beat-path strengths under Raised: needs the Floyd-Warshall correctness of widest_paths)',
             'bucklin_default_monotone on profiles WITH shared ranks (the even split over the compatible strict orders is '
             'modelled and checked by the correspondence and the oracle; the theorems cover split_equal_rankings=False and, for '
             'the default, profiles without shared ranks)']
@@ -271,6 +274,15 @@ def scorer_list(rule, param, n_cand, n_ranked):
     raise ValueError(rule)
 
 
+def _score_fill(prof, c, param):
+    """what a ballot not scoring c contributes to c: 0 (None), the constant, or the minimum of c's own scores"""
+    if param is None:
+        return Fraction(0)
+    if param == 'min':
+        return min(Fraction(x) for b, _ in prof for c2, x in b['set'] if c2 == c)
+    return Fraction(param)
+
+
 def ref_scores(rule, param, prof):
     """reference totals of the additive rules: candidate id -> Fraction (None when the rule refuses)"""
     sc = {}
@@ -285,6 +297,13 @@ def ref_scores(rule, param, prof):
         for b, s in prof:
             for c, x in b['set']:
                 sc[c] = sc.get(c, 0) + Fraction(s) * Fraction(x)
+        if param is not None:
+            # a ballot that does not score a candidate counts as the unscored value for it
+            for c in sc:
+                fill = _score_fill(prof, c, param)
+                for b, s in prof:
+                    if all(c2 != c for c2, _ in b['set']):
+                        sc[c] += Fraction(s) * fill
         return sc
     cs = all_cands(prof)
     sc = {c: Fraction(0) for c in cs}
@@ -407,7 +426,8 @@ def _evaluator(rule, param):
     if rule == 'approval':
         return vcore.PreConverted(vconv.ApprovalToSimpleVotes(), vcore.Plurality())
     if rule == 'score_sum':
-        return vcard.ScoreVoting('sum')
+        un = None if param is None else ('min' if param == 'min' else _num(param))
+        return vcard.ScoreVoting('sum', unscored_value=un)
     if rule == 'bucklin':
         return vseq.PreferenceAddition()
     if rule == 'bucklin_whole':
@@ -723,39 +743,69 @@ def _rand_score(rng, m):
     return prof
 
 
-def score_moves(base, w, rng=None, top=3):
+def score_moves(base, w, rng=None, top=3, param=None):
+    """raises of w's score on every ballot (a ballot not scoring w counts as the fill-in value, so w may be given any
+    score at least that large) and new ballots on which nobody counts for more than w"""
     out = []
     cs = sorted({c for b, _ in base for c, _ in b['set']})
+    fill_w = _score_fill(base, w, param) if any(c == w for b, _ in base for c, _ in b['set']) else Fraction(0)
+    un_tag = f'score_sum:unscored_{param}'
     for bi, (b, s) in enumerate(base):
         cur = dict((c, int(x)) for c, x in b['set'])
         if w in cur:
-            targets = range(cur[w] + 1, top + 2)
+            targets = list(range(cur[w] + 1, top + 2))
             kind_tag = 'score_sum:raise'
         else:
-            targets = range(0, top + 1)
+            lo = int(fill_w) if fill_w == int(fill_w) else int(fill_w) + 1
+            targets = list(range(max(lo, 0), max(lo, top) + 1))
             kind_tag = 'score_sum:raise_unscored'
+        if param not in (None, 'min') and w in cur and cur[w] < int(param) and int(param) not in targets:
+            targets.append(int(param))
         for t in targets:
             nb = {'set': sorted([c, str(t if c == w else x)] for c, x in list(cur.items()) + ([(w, t)] if w not in cur else []))}
-            out.append(_mk('score_sum', None, base, replace_unit(base, bi, nb), w, 'raise',
-                           {'kind': 'raise', 'ballot': bi, 'score': str(t)}, ['score_sum:raise', kind_tag]))
+            tags = ['score_sum:raise', kind_tag, un_tag]
+            if param not in (None, 'min') and t == int(param):
+                tags.append('score_sum:raise_to_unscored_value')
+            out.append(_mk('score_sum', param, base, replace_unit(base, bi, nb), w, 'raise',
+                           {'kind': 'raise', 'ballot': bi, 'score': str(t)}, tags))
     rest = [c for c in cs if c != w]
     news = []
-    if rng is not None:
-        sw = rng.randint(0, top)
-        news.append([[w, str(sw)]])
-        sub = rng.sample(rest, rng.randint(0, len(rest)))
-        news.append(sorted([[w, str(sw)]] + [[c, str(rng.randint(0, sw))] for c in sub]))
+    if param == 'min':
+        # every candidate scored, w at the top of the scale
+        subs = [rest]
+        for sub in subs:
+            if rng is not None:
+                news.append(sorted([[w, str(top)]] + [[c, str(rng.randint(0, top))] for c in sub]))
+            else:
+                for vals in itertools.product(range(0, top + 1), repeat=len(sub)):
+                    news.append(sorted([[w, str(top)]] + [[c, str(v)] for c, v in zip(sub, vals)]))
     else:
-        for sw in range(0, 3):
+        u = 0 if param is None else int(param)
+        if rng is not None:
+            sub = rng.sample(rest, rng.randint(0, len(rest)))
+            lo = u if len(sub) < len(rest) else 0          # an absent candidate counts as u
+            sw = rng.randint(lo, max(lo, top))
+            if rest:
+                sw0 = rng.randint(u, max(u, top))
+                news.append([[w, str(sw0)]])
+            else:
+                news.append([[w, str(rng.randint(0, top))]])
+            news.append(sorted([[w, str(sw)]] + [[c, str(rng.randint(0, sw))] for c in sub]))
+        else:
             for k in range(len(rest) + 1):
-                for sub in itertools.combinations(rest, k):
-                    for vals in itertools.product(range(0, sw + 1), repeat=k):
-                        news.append(sorted([[w, str(sw)]] + [[c, str(v)] for c, v in zip(sub, vals)]))
+                lo = u if k < len(rest) else 0
+                for sw in range(lo, max(lo, 2) + 1):
+                    for sub in itertools.combinations(rest, k):
+                        for vals in itertools.product(range(0, sw + 1), repeat=k):
+                            news.append(sorted([[w, str(sw)]] + [[c, str(v)] for c, v in zip(sub, vals)]))
     for nbl in news:
         nb = {'set': nbl}
-        out.append(_mk('score_sum', None, base, add_ballot(base, nb), w, 'new', {'kind': 'new', 'ballot': nb},
-                       ['score_sum:new']))
+        out.append(_mk('score_sum', param, base, add_ballot(base, nb), w, 'new', {'kind': 'new', 'ballot': nb},
+                       ['score_sum:new', un_tag]))
     return out
+
+
+SCORE_UNSCORED = [None, None, '0', '1', '2', '5', 'min']
 
 
 def gen_score(rng, n_prof):
@@ -764,13 +814,20 @@ def gen_score(rng, n_prof):
         if made >= n_prof:
             break
         base = _rand_score(rng, rng.randint(2, 4))
-        w = ref_winner('score_sum', None, base)
+        param = rng.choice(SCORE_UNSCORED)
+        if param == '5':
+            # a wider scale so that scores below, at and above the fill-in value occur
+            base = [[{'set': [[c, str(rng.randint(2, 9))] for c, _ in b['set']]}, s] for b, s in base]
+            base = [e for i, e in enumerate(base) if all(e[0] != x[0] for x in base[:i])]
+        w = ref_winner('score_sum', param, base)
         if w is None:
             continue
         made += 1
-        cases = score_moves(base, w, rng)
-        if len(cases) > 10:
-            cases = rng.sample(cases, 10)
+        cases = score_moves(base, w, rng, top=9 if param == '5' else 3, param=param)
+        if len(cases) > 12:
+            keep = [c for c in cases if 'score_sum:raise_to_unscored_value' in c['_tags']]
+            other = [c for c in cases if c not in keep]
+            cases = keep[:4] + rng.sample(other, min(len(other), 12 - len(keep[:4])))
         for c in _tag_premise(cases, 'score_sum'):
             yield c
 
@@ -887,6 +944,33 @@ def directed_cases():
             for c in ranked_moves(rule, None, base, w):
                 c['_tags'] += [f'{rule}:premise', 'directed', 'bucklin_split_collision']
                 out.append(c)
+    # score-sum with a fill-in value: a raise that lands exactly on the unscored value (W=0, X=1)
+    base = [[{'set': [[0, '9'], [1, '7']]}, '1'], [{'set': [[0, '4'], [1, '6']]}, '1'], [{'set': [[0, '4'], [1, '3']]}, '1'],
+            [{'set': [[1, '4']]}, '1']]
+    for c in score_moves(base, 0, top=9, param='5'):
+        c['_tags'] += ['score_sum:premise', 'directed']
+        out.append(c)
+    base = [[{'set': [[0, '2'], [1, '1']]}, '1'], [{'set': [[0, '1'], [1, '2']]}, '1'], [{'set': [[0, '2']]}, '1']]
+    for un in ('2', '1', 'min'):
+        w = ref_winner('score_sum', un, base)
+        if w is not None:
+            for c in score_moves(base, w, top=2, param=un):
+                c['_tags'] += ['score_sum:premise', 'directed']
+                out.append(c)
+    # Bucklin: two shared ranks on one ballot (fix c2fec8e: the second one was expanded at the wrong place)
+    base = [[[{'set': [0, 1]}, {'set': [2, 3]}], '2'], [[0, 2, 1, 3], '2'], [[3, {'set': [0, 2]}, 1], '1'],
+            [[{'set': [1, 2]}, 0, {'set': [3, 4]}], '1']]
+    two_shared = [base,
+                  [[[{'set': [1, 2]}, 0], '1'], [[{'set': [0, 3]}, {'set': [1, 2]}], '1']],
+                  [[[{'set': [0, 3]}, {'set': [1, 2]}], '3'], [[{'set': [1, 2]}, 3], '3']],
+                  [[[{'set': [2, 3]}, {'set': [0, 1]}], '1'], [[{'set': [2, 3]}, 1], '2'], [[{'set': [0, 1]}, 2], '3']]]
+    for base in two_shared:
+        for rule in ('bucklin', 'bucklin_whole'):
+            w = ref_winner(rule, None, base)
+            if w is not None:
+                for c in ranked_moves(rule, None, base, w):
+                    c['_tags'] += [f'{rule}:premise', 'directed', 'bucklin_two_shared_ranks']
+                    out.append(c)
     # highest averages: exact quotient tie at the last seat, cap binding, previous gains
     cfg = {'divisor': 'd_hondt', 'first_coef': None, 'votes': [[0, '6'], [1, '3'], [2, '3']], 'n': 3, 'prev': [], 'max': []}
     out += [dict(c, _tags=c['_tags'] + ['directed', 'ha:tie_in_base']) for c in ha_pairs(cfg, [])]
@@ -950,7 +1034,9 @@ def exhaustive_cases():
 
 REQUIRED_COUNTERS = (['ha:house', 'ha:votes', 'ha:caps', 'ha:prev_gains', 'ha:tie_in_base', 'plurality:new',
                       'plurality:switch', 'plurality:premise', 'approval:approve', 'approval:new', 'approval:premise',
-                      'score_sum:raise', 'score_sum:new', 'score_sum:premise', 'minimax_unbeaten_after_move',
+                      'score_sum:raise', 'score_sum:new', 'score_sum:premise', 'score_sum:raise_to_unscored_value',
+                      'score_sum:unscored_None', 'score_sum:unscored_0', 'score_sum:unscored_1', 'score_sum:unscored_2',
+                      'score_sum:unscored_5', 'score_sum:unscored_min', 'bucklin_two_shared_ranks', 'minimax_unbeaten_after_move',
                       'bucklin_second_round', 'bucklin_split_collision', 'lift_unranked', 'lift_out_of_shared', 'unit_of_heavier_ballot',
                       'merges_with_existing', 'fractional_weight']
                      + [f'{r}:{k}' for r in RANKED_RULES for k in ('lift', 'new', 'premise')])
@@ -965,8 +1051,9 @@ RULE = ('highest averages: 1-5 parties, five divisors (+ modified first coeffici
 EXHAUSTIVE = {'thorough': True}
 NOT_VERIFIED = ['PreferenceAddition._decouple_equal_rankings is modelled (decouple/linearize) and tied to the code by the '
                 'correspondence, but the Bucklin theorems cover profiles without shared ranks and split_equal_rankings=False',
-                'ScoreVoting("sum"): the per-candidate {score: count} tables, their expansion into a list and builtin sum are '
-                'modelled as the sum of score x count (the driver cross-checks against the table model of C12)',
+                'ScoreVoting("sum", unscored_value): the per-candidate {score: count} tables, the fill-in entry scores[u] = n_votes - '
+                'n_scores + scores.get(u, 0), their expansion into a list and builtin sum are modelled as sum of score x count + '
+                '(n_votes - n_scores) x u (the driver cross-checks against the table model of C12 on every case)',
                 'highest averages: the sorted list with bisect re-insertion is modelled as a pool (as in C01)',
                 'hash-set iteration order of frozenset ballots and of Schulze.all_candidates is modelled as ascending ids / first appearance']
 
